@@ -3,6 +3,7 @@ package c19
 import (
 	"bytes"
 	"context"
+	"os"
 	"runtime"
 	"strconv"
 	"sync"
@@ -45,6 +46,10 @@ type fakeStream struct {
 	ctxCalled chan struct{}
 }
 
+// rawWrite can be switched off (C19_NO_RAW=1) to run the reproducers under -race without the
+// deliberate race on the stream ending every bubble.
+var rawWrite = os.Getenv("C19_NO_RAW") == ""
+
 func newFakeStream(ctx context.Context) *fakeStream {
 	return &fakeStream{ctx: ctx, ctxCalled: make(chan struct{})}
 }
@@ -61,7 +66,9 @@ func goid() int64 {
 }
 
 func (s *fakeStream) SendMsg(m any) error {
-	s.raw++ // what the transport of a real stream does without a lock
+	if rawWrite {
+		s.raw++ // what the transport of a real stream does without a lock
+	}
 	n := s.inflight.Add(1)
 	ov := n > 1
 	var cp *hydrapb.SubscribeToEventsResponse
